@@ -336,6 +336,8 @@ pub struct Exec {
     pub log_full: Vec<Rec>,
     pub fs_state_post: Option<fatfs::verif::FsState>,
     pub completed: bool,
+    /// clock counter before/after every operation
+    pub tick_ranges: Vec<(u32, u32)>,
 }
 
 // ---------------------------------------------------------------- panic capture
@@ -650,7 +652,9 @@ fn name_units(name: &str) -> usize {
 
 /// Model transition. Returns what the model expects of the call; the model is updated from the
 /// observed result (`res`) only as far as the model itself defines the effect.
-pub fn model_step(m: &mut Model, op: &Op, res: &Res) -> Expect {
+pub fn model_step(m: &mut Model, op: &Op, res: &Res, ticks: (u32, u32), atime: bool) -> Expect {
+    use crate::model::Stamp;
+    let now = Stamp::Range(ticks.0, ticks.1);
     let mut ex = Expect::default();
     let ok = res.is_ok();
     let through = |ex: &mut Expect| {
@@ -682,6 +686,7 @@ pub fn model_step(m: &mut Model, op: &Op, res: &Res) -> Expect {
                         });
                         if ok {
                             let n = m.add(parent, &name, want_dir);
+                            m.nodes.get_mut(&n).unwrap().stamps = crate::model::Stamps { created: now, modified: now, accessed: now };
                             m.changed_since_mount = true;
                             open_handle(m, n, want_dir, *keep);
                         }
@@ -819,18 +824,31 @@ pub fn model_step(m: &mut Model, op: &Op, res: &Res) -> Expect {
             ex.space = Some(SpaceNeed::Data);
             if let Ok(Out::Count(n)) = res {
                 apply_write(m, *h as usize, *n, *len as u64);
+                if *n > 0 {
+                    let nid = m.fh[*h as usize].as_ref().unwrap().nid;
+                    m.nodes.get_mut(&nid).unwrap().stamps.modified = now;
+                }
             }
         }
         Op::WriteAll { h, .. } | Op::Fill { h, .. } => {
             ex.space = Some(SpaceNeed::Data);
             if let Ok(Out::Progress { accepted, .. }) = res {
                 apply_write(m, *h as usize, *accepted, *accepted);
+                if *accepted > 0 {
+                    let nid = m.fh[*h as usize].as_ref().unwrap().nid;
+                    m.nodes.get_mut(&nid).unwrap().stamps.modified = now;
+                }
             }
         }
         Op::Read { h, .. } | Op::ReadExact { h, .. } => {
             if let Ok(Out::Bytes(b)) = res {
                 let hd = m.fh[*h as usize].as_mut().unwrap();
                 hd.pos += b.len() as u64;
+                if !b.is_empty() && atime {
+                    hd.dirty = true;
+                    let nid = hd.nid;
+                    m.nodes.get_mut(&nid).unwrap().stamps.accessed = now;
+                }
             }
         }
         Op::Seek { h, pos } => {
@@ -875,8 +893,16 @@ pub fn model_step(m: &mut Model, op: &Op, res: &Res) -> Expect {
         Op::DropDir { d } => {
             m.dh[*d as usize] = None;
         }
-        Op::SetTime { h, .. } => {
-            m.fh[*h as usize].as_mut().unwrap().dirty = true;
+        Op::SetTime { h, which, tick } => {
+            let hd = m.fh[*h as usize].as_mut().unwrap();
+            hd.dirty = true;
+            let nid = hd.nid;
+            let st = &mut m.nodes.get_mut(&nid).unwrap().stamps;
+            match which {
+                Which::Created => st.created = Stamp::Exact(*tick),
+                Which::Modified => st.modified = Stamp::Exact(*tick),
+                Which::Accessed => st.accessed = Stamp::Exact(*tick),
+            }
         }
         Op::Extents { .. } | Op::Stats | Op::StatusFlags | Op::Label | Op::Meta => {
             ex.no_opinion = true;
@@ -1207,6 +1233,7 @@ fn run_epoch<'a>(fs: &'a Fs, cx: &mut RunCtx, i: &mut usize) -> EpochEnd {
             prepare_last(cx, Some(&slots));
         }
         cx.st.borrow_mut().op_idx = *i as u32;
+        let t_before = cx.ctr.get();
         let m_snapshot = cx.ex.model.clone();
         let r = {
             let slots_ref = &mut slots;
@@ -1228,7 +1255,9 @@ fn run_epoch<'a>(fs: &'a Fs, cx: &mut RunCtx, i: &mut usize) -> EpochEnd {
         if is_last {
             after_last_counters(cx);
         }
-        let expect = model_step(&mut cx.ex.model, op, &res);
+        let t_after = cx.ctr.get();
+        let expect = model_step(&mut cx.ex.model, op, &res, (t_before, t_after), cx.cfg.atime);
+        cx.ex.tick_ranges.push((t_before, t_after));
         let needs_alias = res.is_ok() && matches!(op, Op::CreateFile { .. } | Op::CreateDir { .. } | Op::Rename { .. });
         cx.ex.outs.push(res);
         cx.ex.expects.push(expect);
@@ -1437,6 +1466,7 @@ pub fn run(cfg: &Cfg, ops: &[Op], plan: &Plan) -> Exec {
         log_full: Vec::new(),
         fs_state_post: None,
         completed: false,
+        tick_ranges: Vec::new(),
     };
     let mut cx = RunCtx { cfg, ops, plan, st: st.clone(), ctr: ctr.clone(), ex };
     let mut i = 0usize;
@@ -1515,7 +1545,9 @@ pub fn run(cfg: &Cfg, ops: &[Op], plan: &Plan) -> Exec {
                 if is_last {
                     after_last_counters(&mut cx);
                 }
-                let expect = model_step(&mut cx.ex.model, &cx.ops[idx], &res);
+                let t_now = cx.ctr.get();
+                let expect = model_step(&mut cx.ex.model, &cx.ops[idx], &res, (t_now, t_now), cfg.atime);
+                cx.ex.tick_ranges.push((t_now, t_now));
                 let failed_mount = newfs.is_none();
                 if failed_mount {
                     if let Err(k) = &res {
